@@ -577,7 +577,7 @@ fn model_bytes_left(bits: &[u8]) -> Vec<u8> {
         .collect()
 }
 
-fn single_ops(subject_m: &[u8], mk: &dyn Fn() -> Bitstr, tails: &[(Bitstr, Vec<u8>)], counts: &mut BTreeMap<String, u64>, cls: &str) -> Result<u64, (String, String)> {
+fn single_ops(subject_m: &[u8], mk: &dyn Fn() -> Bitstr, mk_sibling: &dyn Fn(&[u8]) -> Bitstr, tails: &[(Bitstr, Vec<u8>)], counts: &mut BTreeMap<String, u64>, cls: &str) -> Result<u64, (String, String)> {
     let mut n = 0u64;
     let len = subject_m.len();
     let fail = |op: &str, msg: String| Err((op.to_string(), msg));
@@ -679,6 +679,24 @@ fn single_ops(subject_m: &[u8], mk: &dyn Fn() -> Bitstr, tails: &[(Bitstr, Vec<u
             return fail("eq_with", format!("{:?} vs {:?}", subject_m, tm));
         }
         n += 1;
+    }
+    // equality against siblings stored the same way (same recipe, alignment and junk): a copy with
+    // one bit flipped is never equal, whatever the position of the bit
+    for j in 0..len {
+        let mut m2 = subject_m.to_vec();
+        m2[j] ^= 1;
+        let sib = mk_sibling(&m2);
+        n += 1;
+        if s.eq_with(&sib) || sib.eq_with(&s) || s == sib {
+            return fail("eq_with", format!("equal to a sibling that differs in bit {} of {}", j, len));
+        }
+    }
+    {
+        let twin = mk_sibling(subject_m);
+        n += 1;
+        if !s.eq_with(&twin) || !twin.eq_with(&s) {
+            return fail("eq_with", "not equal to a twin stored the same way".to_string());
+        }
     }
     let r = mk().invert();
     n += 1;
@@ -805,7 +823,17 @@ pub fn run(cfg: &Cfg) -> i32 {
                                 });
                                 b
                             };
-                            let r = guarded(|| single_ops(&m, &mk, &tails, &mut local, &cls));
+                            let mk_sibling = |m2: &[u8]| {
+                                let mut k2 = vec![];
+                                let b = make(recipe, m2, a, junk, &mut k2).unwrap();
+                                HOLD2.with(|h| {
+                                    let mut h = h.borrow_mut();
+                                    h.clear();
+                                    h.extend(k2);
+                                });
+                                b
+                            };
+                            let r = guarded(|| single_ops(&m, &mk, &mk_sibling, &tails, &mut local, &cls));
                             nsub += 1;
                             let r = match r {
                                 Err(p) => Err(("panic".to_string(), p)),
@@ -835,6 +863,7 @@ pub fn run(cfg: &Cfg) -> i32 {
             }
         }
         HOLD.with(|h| h.borrow_mut().clear());
+        HOLD2.with(|h| h.borrow_mut().clear());
         single_ops_n.fetch_add(nops, Ordering::Relaxed);
         single_subjects.fetch_add(nsub, Ordering::Relaxed);
         recipe_counts.merge(&local);
@@ -879,4 +908,5 @@ pub fn run(cfg: &Cfg) -> i32 {
 
 thread_local! {
     static HOLD: std::cell::RefCell<Vec<Bitstr>> = std::cell::RefCell::new(Vec::new());
+    static HOLD2: std::cell::RefCell<Vec<Bitstr>> = std::cell::RefCell::new(Vec::new());
 }
